@@ -222,6 +222,11 @@ func c12SheetOracle(r *Run, bk *c12Book, xmlL, sizeL int64, script []string, ref
 		return
 	}
 	r.Stat("oracle:sheet-ops")
+	for _, e := range got.log {
+		if strings.Contains(e, "stream-spilled=true") {
+			r.Stat("sheetops:stream-writer-spilled-past-chunk-size")
+		}
+	}
 	if got.left != 0 {
 		r.Fail("tmp-left-after-close:sheet-ops", fmt.Sprintf("%d temp file(s) remain in TMPDIR after Close following sheet operations (book %s, limits %d/%d, script %s)", got.left, bk.id, xmlL, sizeL, strings.Join(script, ",")), 0, header)
 	}
